@@ -1982,6 +1982,7 @@ bool ParseN2kPGN130311(const tN2kMsg &N2kMsg, unsigned char &SID, tN2kTempSource
     int Index=0;
     SID=N2kMsg.GetByte(Index);
     vb=N2kMsg.GetByte(Index); TempSource=(tN2kTempSource)(vb & 0x3f); HumiditySource=(tN2kHumiditySource)(vb>>6 & 0x03);
+    if (HumiditySource==3) HumiditySource=N2khs_Undef; // 2-bit field: all ones is "not available"
     Temperature=N2kMsg.Get2ByteUDouble(0.01,Index);
     Humidity=N2kMsg.Get2ByteDouble(0.004,Index);
     AtmosphericPressure=N2kMsg.Get2ByteUDouble(100,Index);
